@@ -32,6 +32,7 @@ import RattrModel.Spec.ImportEquiv
 import RattrModel.Generated.C06
 import RattrProofs.Lemmas.C06
 import RattrProofs.Lemmas.C06Blacklist
+import RattrProofs.Lemmas.C06Regex
 import RattrProofs.Lemmas.C06Local
 import RattrModel.Pipeline2
 import RattrProofs.Lemmas.Pipeline2
@@ -612,6 +613,28 @@ theorem C06_builtin_patterns_dotless (name : Str) (hd : '.' ∉ name) :
   unfold builtinSpec
   rw [hu, hu, hu, hn (s "package.rattr") (by decide), hn (s "packages.rattr") (by decide)]
   simp
+
+
+/-- **the blacklist matcher decides the language of its pattern** (round 5): for every pattern of the fragment and every
+module name / origin, `fullMatch` is membership in the pattern's language as the `re` documentation defines it
+(`Regex.Matches`, `RattrModel/Regex.lean`), and equals the general derivative matcher used for `--exclude` (C11). Before
+this theorem the matcher was only validated against CPython's `re` by Tie B. -/
+theorem C06_blacklist_fullmatch_is_membership (p : Pattern) (subject : Str) :
+    (fullMatch p subject = true ↔ Regex.Matches (toRe p) subject)
+      ∧ fullMatch p subject = Regex.fullmatch (toRe p) subject :=
+  ⟨fullMatch_iff_matches p subject, fullMatch_eq_regex p subject⟩
+
+/-- a module is blacklisted by pattern only through a FULL match of its name or of one of its origins -/
+theorem C06_matchesAny_iff (ps : List Pattern) (subject : Str) :
+    matchesAny ps subject = true ↔ ∃ p ∈ ps, Regex.Matches (toRe p) subject := by
+  simp only [matchesAny, List.any_eq_true]
+  constructor
+  · rintro ⟨p, hp, h⟩; exact ⟨p, hp, (fullMatch_iff_matches p subject).1 h⟩
+  · rintro ⟨p, hp, h⟩; exact ⟨p, hp, (fullMatch_iff_matches p subject).2 h⟩
+
+/-- non-vacuity: the perennial patterns are in the fragment, `rattr` is in their language, `rattr_helpers` is not -/
+example : (∃ p ∈ builtinPatterns, Regex.fullmatch (toRe p) (s "rattr") = true)
+    ∧ (∀ p ∈ builtinPatterns, Regex.fullmatch (toRe p) (s "rattr_helpers") = false) := by decide
 
 /-- The code uses `fullmatch`, not `match`: names that an excluded pattern matches as a proper PREFIX
 are not excluded (kernel-evaluated on the names of the generated projects; a test). -/
